@@ -28,12 +28,15 @@ package schemas
 // would change the code generated for them. mergo is external; assumed: Merge may
 // write to anything reachable from its destination through pointers and maps.
 //@ func MergeTypes@pure
-//@   props C11 C12
+//@   props C11 C12 C04 C05 C06 C07 C09
 //@   shape types = types(a:object;b:object) | types(a:object) | types(a:object;b:object;c:object)
 //@   assigns nothing
 //@   ensures [C11] result-or-error: (result1 == nil) != (result0 == nil)
 //@   ensures [C11] result-is-new: result1 == nil ==> fresh(result0)
-//@   ensures [C11] merge-options: result1 == nil ==> merge_options() == "WithAppendSlice,WithTransformers"
+// (allOf branches that constrain the same property are merged keyword by keyword:
+// without the deep merge a later branch's minLength, maxItems, minimum, required…
+// on that property is dropped — every per-keyword property depends on it.)
+//@   ensures [C11,C04,C05,C06,C07,C09] merge-options: result1 == nil ==> merge_options() == "WithAppendSlice,WithTransformers"
 
 // With nested sub-schemas the same obligation FAILS on the real code, and rightly:
 // the first Merge copies the first branch's pointers (property sub-schemas,
